@@ -1201,6 +1201,11 @@ func (s *LoadingStore[K, V]) Get(ctx context.Context, key K) (V, error) {
 			// load and store should be atomic
 			shard.mu.Lock()
 			defer shard.mu.Unlock()
+			// Stop sharing this call before the shard lock is released. Otherwise a
+			// caller that misses the map later - after the loaded value was deleted
+			// again, or after Close - could still join the finished call and be
+			// handed its old result.
+			defer shard.group.Forget(key)
 			if shard.closed {
 				return Loaded[V]{}, ErrCacheClosed
 			}
